@@ -222,7 +222,7 @@ class Interp:
 
         if isinstance(a, _mp.ArrSet) or isinstance(b, _mp.ArrSet):
             s_, other = (a, b) if isinstance(a, _mp.ArrSet) else (b, a)
-            if isinstance(other, (frozenset, set)) and len(other) == 0:
+            if (isinstance(other, (frozenset, set)) or type(other).__name__ == "PSet") and len(other) == 0:
                 return z3.Not(s_.nonempty())
             raise Unsupported("comparison of a symbolic set with a non-empty set")
         if isinstance(a, Maybe) or isinstance(b, Maybe):
@@ -1419,6 +1419,8 @@ class Interp:
             return self.or_all([self.eq(x, y) for y in cont.items])
         if isinstance(cont, (tuple, list, frozenset, set)):
             return self.or_all([self.eq(x, y) for y in cont])
+        if type(cont).__name__ == "PSet":
+            return self.or_all([self.eq(x, y) for y in cont.items])
         if isinstance(cont, PDict):
             if self.is_concrete(x):
                 try:
